@@ -161,7 +161,7 @@ def check_loop_anchors(binary, anchors, log=None):
         except Exception as e:
             return 'cannot read %s:%d (%s)' % (f, ln, e)
         if not re.search(rx, text):
-            return 'loop %s.%s at %s:%d is %r, expected /%s/' % (fn, lid, f, ln, text.strip(), rx)
+            return 'DRIFT loop %s.%s at %s:%d is %r, expected /%s/' % (fn, lid, f, ln, text.strip(), rx)
     return ''
 
 
@@ -195,7 +195,11 @@ def verify(job):
     cur = a
     if job.loop_anchors:
         bad = check_loop_anchors(a, job.loop_anchors, log)
-        if bad:
+        if bad.startswith('DRIFT'):
+            # same number of loops, a loop header reads differently: the contracts are still applied by ordinal, but a
+            # failing obligation is then only believed if the engine reproduces it natively on the real code
+            res['anchor_drift'] = bad
+        elif bad:
             res.update(status='error', reason='loop map out of date: ' + bad)
             return res
     if job.pre_unwindset:
@@ -286,6 +290,7 @@ def verify(job):
             res['failed'].append({'property': pid, 'description': desc, 'tag': tag,
                                   'location': p.get('sourceLocation', {}), 'status': st})
             failed_ids.append(pid)
+    res['failed'].sort(key=lambda f: 1 if f.get('library') else 0)
     if unwind_fail:
         res.update(status='error', reason='unwinding assertion failed: bound too small (tool setup problem, not a violation)')
         return res
